@@ -15,6 +15,10 @@ use stretto::verif::{clock, counters, sched};
 const ALL: [Flavor; 5] = [Flavor::Sync, Flavor::Async(Exec::TokioMt), Flavor::Async(Exec::TokioCt), Flavor::Async(Exec::AsyncStd), Flavor::Async(Exec::ThreadPerTask)];
 
 fn workers_gone(flavor: Flavor, timeout: Duration) -> bool {
+    crate::supervise::polling(|| workers_gone_inner(flavor, timeout))
+}
+
+fn workers_gone_inner(flavor: Flavor, timeout: Duration) -> bool {
     let t0 = Instant::now();
     loop {
         let c = counters::snapshot();
@@ -446,7 +450,8 @@ fn grid_scenario(flavor: Flavor, cfgv: (usize, i64, usize, usize, bool, bool, u6
                     let _ = d.try_remove(k);
                 }
                 1 | 2 | 3 => {
-                    for _ in 0..rng.range(1, (nc as u64).clamp(2, 80)) {
+                    // enough look-ups to flush the ring (buffer_items) and, for small widths, to cross aging resets
+                    for _ in 0..(bi as u64).max(1) + rng.range(1, (nc as u64).clamp(2, 16)) {
                         let _ = d.get(k);
                     }
                     let _ = d.get_mut(k, None);
@@ -487,6 +492,10 @@ fn grid_scenario(flavor: Flavor, cfgv: (usize, i64, usize, usize, bool, bool, u6
     if let Err(e) = &waited {
         f.add("C20", "wait/never-ok", format!("wait() kept failing on an idle cache: {e}"));
     }
+    // reading every metric must not panic either
+    let _ = d.metrics();
+    let _ = d.ratio();
+    let _ = d.life_histogram();
     let c = counters::snapshot();
     if c.CACHE_WORKERS_EXITED > 0 || c.POLICY_WORKERS_EXITED > 0 || c.WORKERS_PANICKED > 0 {
         f.add("C20", "worker/died", format!("a background worker ended before close(): cache {}/{} policy {}/{} panicked {}", c.CACHE_WORKERS_EXITED, c.CACHE_WORKERS_STARTED, c.POLICY_WORKERS_EXITED, c.POLICY_WORKERS_STARTED, c.WORKERS_PANICKED));
@@ -540,7 +549,11 @@ pub fn grid_values(thorough: bool) -> Vec<(usize, i64, usize, usize, bool, bool,
         // pairwise-style coverage: every num_counters with rotating partners, plus every pair of the small parameters
         let mut i = 0usize;
         for &nc in &ncs {
-            for j in 0..4 {
+            // two partners under which evictions and estimator traffic are certain (small max_cost,
+            // internal cost ignored, small look-up batches), then rotating ones incl. the zero values
+            v.push((nc, 2, 8, 1, nc % 2 == 0, true, 1));
+            v.push((nc, 10, 2, 2, nc % 2 == 1, true, 1000));
+            for j in 0..3 {
                 i += 1;
                 v.push((nc, mcs[(i + j) % mcs.len()], bss[(i / 2 + j) % bss.len()], bis[(i / 3 + j) % bis.len()], (i + j) % 2 == 0, (i / 2) % 2 == 0, cls[(i + j) % cls.len()]));
             }
